@@ -38,6 +38,8 @@ def check(ctx):
     ctx.attempt(_selection)
     ctx.attempt(_mro_calls)
     ctx.attempt(forward.check_all, module_suffixes=('containers.containers', 'plssdesc.plssdesc'))
+    ctx.attempt(common.clause_purity, [f for f in ctx.repo.funcs.values() if f.module.name.endswith(('trs.trs','containers.containers'))])
+    ctx.attempt(common.outparam_truthiness, [f for f in ctx.repo.funcs.values() if f.module.name.endswith('containers.containers')])
 
 
 def _entry_paths(ctx, base):
